@@ -326,7 +326,7 @@ type c09Job struct {
 	ModDir  string   `json:"mod_dir"`
 	Procs   int      `json:"procs"`
 	Threads int      `json:"threads"`
-	Calls   []int    `json:"calls"` // clones: argument of each concurrent call
+	Calls   []int    `json:"calls"`   // clones: argument of each concurrent call
 	Sync    string   `json:"sync"`    // hold: barrier | yield | sleep | none (what hold_sync() does in the concurrent run)
 	PayLen  int      `json:"pay_len"` // hold: length of every evaluation's own payload
 	Plain   bool     `json:"plain"`   // run the child without the race detector (undisturbed scheduling and sync.Pool behaviour)
